@@ -323,7 +323,7 @@ func genC05Hostile(t *rapid.T) c05Hostile {
 	case 3:
 		c.LeadOnes = rapid.IntRange(1, 3).Draw(t, "ones")
 	case 4:
-		c.TrailJunk = rapid.SampledFrom([]string{"1", "0", "O", "I", "l", " ", "z", "\x00"}).Draw(t, "junk")
+		c.TrailJunk = rapid.SampledFrom([]string{"1", "0", "O", "I", "l", " ", "z", "\x00", "\n", "\t", "\r\n", "\u00a0"}).Draw(t, "junk")
 	case 5:
 		c.AllFlips = rapid.IntRange(0, 5).Draw(t, "allflips") == 0
 	case 6:
